@@ -1562,9 +1562,15 @@ impl<'a> Visitor<'a, '_, Error> for JSONValidator<'a> {
           if is_ident_string_data_type(self.state.cddl, ident)
             || is_ident_uint_data_type(self.state.cddl, ident) =>
         {
-          self.state.ctrl = Some(ctrl);
-          self.visit_type2(controller)?;
-          self.state.ctrl = None;
+          // The value has to be of the target type before its size means
+          // anything: `tstr .size 2` must not accept the number 0.
+          let error_count = self.errors.len();
+          self.visit_type2(target)?;
+          if self.errors.len() == error_count {
+            self.state.ctrl = Some(ctrl);
+            self.visit_type2(controller)?;
+            self.state.ctrl = None;
+          }
         }
         _ => {
           self.add_error(format!(
